@@ -21,3 +21,4 @@ c.modifies()
 c.twin("check/accepts-only-below-limit", "ok and MAX_DEPTH == 0")
 c.cover("accepts", "ok")
 c.expect(paths=3)
+c.replay("check_max_depth", method="context.get_start_method()", depth="old(_CURRENT_DEPTH)", max_depth="old(MAX_DEPTH)")
